@@ -415,7 +415,9 @@ def _cid_strategy(tier, ident):
         return {"ident": ident, "shape": draw(gen.grid_shape(dim, 5, 14 if dim == 2 else 9, long_axis=70 if dim == 2 else 40)), "dtype": draw(gen.precisions),
                 "threads": draw(st.sampled_from([False, 1, 2])), "keys": draw(st.lists(gen.block_keys, min_size=3, max_size=3)),
                 "layouts": draw(st.lists(st.sampled_from(LAYOUTS12), min_size=4, max_size=4)),
-                "pre_exp": draw(st.integers(-3, 2)), "reset": draw(st.booleans())}
+                "pre_exp": draw(st.integers(-3, 2)), "reset": draw(st.booleans()),
+                # how the two velocity arguments of the penalised update relate in memory
+                "pair": draw(st.sampled_from(["separate", "interleaved", "one_allocation"]))}
 
     return case()
 
@@ -476,6 +478,14 @@ def _cid_body(case, ctx):
             nc = 3 if dim == 3 else 2
             U = _lay(_ints(case["keys"][0], (nc, *shape), real_t), L[0], dim)
             G = _lay(_ints(case["keys"][1], (nc, *shape), real_t), L[1], dim)
+            if case.get("pair") == "interleaved":
+                # both velocities live in one state array (..., 2): overlapping memory extents, no common element
+                state = np.stack([np.asarray(U), np.asarray(G)], axis=-1).copy()
+                U, G = state[..., 0], state[..., 1]
+            elif case.get("pair") == "one_allocation":
+                state = np.concatenate([np.asarray(U).reshape(-1), np.full(3, 77.0, dtype=real_t), np.asarray(G).reshape(-1)])
+                n_ = U.size
+                U, G = state[:n_].reshape(U.shape), state[n_ + 3:].reshape(G.shape)
             w0 = _ints(case["keys"][2], (3, *shape) if dim == 3 else shape, real_t)
             W1 = _lay(w0.copy(), L[2], dim)
             W2 = _lay(w0.copy(), L[3], dim)
